@@ -1,5 +1,6 @@
 r"""Array utilities.
 """
+from operator import index
 from typing import List, Union
 
 import numpy as np
@@ -125,6 +126,7 @@ def oversample_piecewise_constant(a: np.ndarray, num: int):
     """
     if num < 2:
         return a
+    num = index(num)  # -num below wraps around for NumPy unsigned integers
     a = np.asarray(a)
     return a.repeat(num)[: -num + 1]
 
@@ -177,6 +179,7 @@ def extend_linspace(a: np.ndarray, n: int, direction="both", lstart: float = Non
 
     """
     a = np.asarray(a, dtype=float)
+    n = index(n)  # -n below wraps around for NumPy unsigned integers
     if direction == "both" or direction == "left":
         if lstart is None:
             lstart = 2 * a[0] - a[n]
